@@ -319,6 +319,64 @@ theorem walkLoop_back_done (e : Env) (wf : WF e) (t r : Nat) (fuel : Nat) (σ : 
 /-- **one backward task, framing**: a successful `scheduleTask` of a backward effort task with the single resource `r`,
     started with nothing of the task on `r`, leaves it framed: bookings between the finishing slot and the first booked
     slot, start inside the former, end = end of the latter -/
+theorem scheduleTask_framed_back_sel2 (e : Env) (wf : WF e) (σ : St) (t r : Nat)
+    (hinv : Inv e σ) (hlf : (e.taskD t).leaf = true) (hal : (e.taskD t).hasAlloc = true)
+    (hnm : (e.taskD t).milestone = false) (hpos : 0 < (e.taskD t).effort)
+    (hsel0 : selectBest e (σ.setT t (σ.tst t)) (e.taskD t).alloc (e.taskD t).alt (e.taskD t).effort (initCursor e σ t).1 = [r])
+    (hb : t < σ.ts.size) (hf : (σ.tst t).forward = false)
+    (hnd : (σ.tst t).done = false) (hclean : ∀ i, usageOf (σ.led.get r i).usage t = none)
+    (hok : (scheduleTask e σ t).2 = true) : Framed e (scheduleTask e σ t).1 t r ∧ Ordered (scheduleTask e σ t).1 t := by
+  have hpc : preStartCursor e σ t (initCursor e σ t).1 = (initCursor e σ t).1 := by
+    unfold preStartCursor; simp [hf]
+  have hpt : preStartT e σ t (initCursor e σ t).1 = σ.tst t := by
+    unfold preStartT; simp [hf]
+  have hoff := initCursor_off e σ t wf
+  unfold scheduleTask at hok ⊢
+  simp only [hnd, Bool.false_eq_true, if_false, hpc, hpt, hf] at hok ⊢
+  have h0 : Inv e (σ.setT t (σ.tst t)) := inv_setT _ _ hinv
+  by_cases hout : ((initCursor e σ t).1 < 0 || (initCursor e σ t).1 > e.upper) = true
+  · simp only [hout, if_true] at hok
+    exact Bool.noConfusion hok
+  · simp only [hout, Bool.false_eq_true, if_false] at hok ⊢
+    have hw : WalkOk e t { cur := (initCursor e σ t).1, offset := (initCursor e σ t).2 } :=
+      ⟨hoff.1, hoff.2, wf.effort_nonneg t⟩
+    have hbi : BInv e (σ.setT t (σ.tst t)) t r { cur := (initCursor e σ t).1, offset := (initCursor e σ t).2 } [] := by
+      refine ⟨⟨fun i _ => hclean i, fun i hi => absurd hi List.not_mem_nil,
+          by show (0 : Rat) = sumOver _ r t [] / 3600 * (e.resD r).eff; simp only [sumOver]; grind, List.nodup_nil⟩,
+        by rw [size_setT]; exact hb, by rw [tst_setT_same _ _ _ hb]; exact hf,
+        ⟨fun _ i hi => absurd hi List.not_mem_nil, fun fb hfb => by simp at hfb⟩⟩
+    have hs0 : selectedOf e (σ.setT t (σ.tst t)) t { cur := (initCursor e σ t).1, offset := (initCursor e σ t).2 } = [r] := by
+      unfold selectedOf; exact hsel0
+    by_cases hfin : (walkLoop e t false (e.size.toNat + 3) (σ.setT t (σ.tst t))
+        { cur := (initCursor e σ t).1, offset := (initCursor e σ t).2 }).2.2 = true
+    · simp only [hfin, Bool.not_true, Bool.false_eq_true, if_false] at hok ⊢
+      obtain ⟨lo, fb, hfbw, hle, hlone, hfbne, hall, ⟨v, hv, hv1, hv2⟩⟩ :=
+        walkLoop_back_done e wf t r _ _ _ [] h0 hlf hw hal hnm hs0 hpos hpos hbi hfin
+      have hsz : t < (walkLoop e t false (e.size.toNat + 3) (σ.setT t (σ.tst t))
+          { cur := (initCursor e σ t).1, offset := (initCursor e σ t).2 }).1.ts.size := by
+        rw [(walkLoop_frame e t false _ _ _).2.2.2.2, size_setT]; exact hb
+      have hdec : decide ((e.taskD t).effort > 0) = true := by simpa using hpos
+      have hord : v ≤ e.time (fb + 1) := Int.le_trans hv2 (time_mono e wf _ _ (by omega))
+      refine ⟨⟨lo, fb, hle, hlone, hfbne, hall, ⟨v, ?_, hv1, hv2⟩, ⟨e.time (fb + 1), ?_, ?_, Int.le_refl _⟩⟩,
+        ⟨v, e.time (fb + 1), ?_, ?_, hord⟩⟩
+      · rw [tst_setT_same _ _ _ hsz]
+        unfold finalT
+        simp only [Bool.false_eq_true, if_false, hv, Option.isNone_some, hdec, Bool.true_or, if_true]
+      · rw [tst_setT_same _ _ _ hsz]
+        unfold finalT
+        simp only [Bool.false_eq_true, if_false, hv, Option.isNone_some, hdec, Bool.true_or, if_true, hfbw, Option.getD_some]
+      · exact time_mono e wf _ _ (by omega)
+      · rw [tst_setT_same _ _ _ hsz]
+        unfold finalT
+        simp only [Bool.false_eq_true, if_false, hv, Option.isNone_some, hdec, Bool.true_or, if_true]
+      · rw [tst_setT_same _ _ _ hsz]
+        unfold finalT
+        simp only [Bool.false_eq_true, if_false, hv, Option.isNone_some, hdec, Bool.true_or, if_true, hfbw, Option.getD_some]
+    · have hfin' : (walkLoop e t false (e.size.toNat + 3) (σ.setT t (σ.tst t))
+        { cur := (initCursor e σ t).1, offset := (initCursor e σ t).2 }).2.2 = false := by simpa using hfin
+      simp only [hfin', Bool.not_false, if_true] at hok
+      exact Bool.noConfusion hok
+
 theorem scheduleTask_framed_back_sel (e : Env) (wf : WF e) (σ : St) (t r : Nat)
     (hinv : Inv e σ) (hlf : (e.taskD t).leaf = true) (hal : (e.taskD t).hasAlloc = true)
     (hnm : (e.taskD t).milestone = false) (hpos : 0 < (e.taskD t).effort)
